@@ -107,6 +107,16 @@ def handle (cmd : String) (args impl : List String) : Option (String × String) 
   else if cmd = "c05.free" then handleFree args impl
   else if cmd = "c05.pipe" then handlePipe args impl
   else if cmd = "c05.chain" then handleChain args impl
+  -- the same runs through an output built on the real Batcher: <batch size> <workers> precede the kinds;
+  -- the batcher's commit finalizes EVERY event that entered the batch (regular and child-parent)
+  else if cmd = "c05.bpipe" then
+    match args with
+    | k :: c :: par :: nsrc :: _bs :: _bw :: ks => handlePipe (k :: c :: par :: nsrc :: ks) impl
+    | _ => none
+  else if cmd = "c05.bchain" then
+    match args with
+    | k :: c :: ord :: _bs :: _bw :: ks => handleChain (k :: c :: ord :: ks) impl
+    | _ => none
   else none
 
 end FileD.DrvC05
